@@ -369,7 +369,8 @@ func (sc *collection) doBuild(ctx context.Context) (Provider, error) {
 	p.voidReturnScopedDescriptors = voidReturnScoped
 	p.voidReturnScopedDescriptorsMu.Unlock()
 	for _, descriptor := range voidReturnScoped {
-		if _, err := p.rootScope.createInstance(descriptor); err != nil {
+		key := instanceKey{Type: descriptor.Type, Key: descriptor.Key, Group: descriptor.Group}
+		if _, err := p.rootScope.resolve(key, descriptor); err != nil {
 			_ = p.Close()
 			return nil, &BuildError{
 				Phase:   "scope-creation",
